@@ -39,6 +39,7 @@ package processorqueue
 
 //@ func (*Request).SetProcessedSuccess
 //@   prop C06
+//@   requires[quota-admitted-it] r.gAdmitted
 //@   modifies r.state, r.result, opof(r.waitGroup), now
 //@   ensures[delivered] seq: r.state == requestProcessed && (old(r.state) != requestProcessed ==> r.result == requestSuccess) && (old(r.state) == requestProcessed ==> r.result == old(r.result))
 //@   ensures[signals-once] seq: wgcount(r.waitGroup) == 0
@@ -142,3 +143,13 @@ package processorqueue
 //@   ensures[expiry-index-untouched] forall(k, string, (in(k, watcher.requestsExpireAt) <==> old(in(k, watcher.requestsExpireAt))) && watcher.requestsExpireAt[k] == old(watcher.requestsExpireAt[k]))
 //@   ensures[watch-list-untouched] forall(k, string, (in(k, watcher.requests) <==> old(in(k, watcher.requests))) && watcher.requests[k] == old(watcher.requests[k]))
 //@   ensures[busy-requests-left-alone] forall(o, *Request, old(o.state) == requestProcessing ==> o.state == requestProcessing)
+
+// the processing loop: a request is marked successful only after the quota admitted it; a blocked head request is handed
+// back (StopProcessing) and the loop stops until the next round
+//@ func (*queueProcessor).tryProcessQueueItems
+//@   prop C06
+//@   mode seq
+//@   requires p.requestsWatcher != nil && watchOK(p.requestsWatcher) && p.metaData != nil
+//@   modifies allof(Request.state), allof(Request.result), allof(Request.waitGroup), allof(Request.gAdmitted), opall(Request.waitGroup), gLastAllowed, gEnqStamp, now
+//@   loop 1 modifies allof(Request.state), allof(Request.result), allof(Request.waitGroup), allof(Request.gAdmitted), opall(Request.waitGroup), gLastAllowed, gEnqStamp
+//@   ensures[watch-list-untouched] forall(k, string, (in(k, p.requestsWatcher.requests) <==> old(in(k, p.requestsWatcher.requests))) && p.requestsWatcher.requests[k] == old(p.requestsWatcher.requests[k]))
